@@ -304,6 +304,50 @@ def api_flag_cases(only=None):
             fails.append((name, f"inputs received gradients {got}; with inputs constant={inconst} and the result constant={kw} every one must be {want}"))
         if any(o.grad is not None for o in outs) and kw:
             fails.append((name, "a result made constant acquired a .grad"))
+    # (c) conversions with an explicit constant= : the flag wins (for integer data constant=False is refused instead)
+    CONV = [
+        ("astype-nocopy", lambda t, c: t.astype(t.dtype, copy=False, constant=c)),
+        ("astype-copy", lambda t, c: t.astype(t.dtype, constant=c)),
+        ("astype-f32", lambda t, c: t.astype(np.float32, copy=False, constant=c)),
+        ("copy", lambda t, c: t.copy(constant=c)),
+        ("astensor", lambda t, c: mg.astensor(t, constant=c)),
+        ("astensor-dtype", lambda t, c: mg.astensor(t, dtype=np.float32, constant=c)),
+        ("tensor", lambda t, c: mg.tensor(t, constant=c)),
+        ("tensor-nocopy", lambda t, c: mg.tensor(t, constant=c, copy=False)),
+        ("Tensor", lambda t, c: mg.Tensor(t, constant=c)),
+    ]
+    for (cname, f), tconst, kw in itertools.product(CONV, (False, True), (True, False)):
+        name = f"conversion|{cname}|tensor_constant={tconst}|constant={kw}"
+        if only is not None and name != only:
+            continue
+        n += 1
+        t = T(tconst, 3)
+        try:
+            r = f(t, kw)
+        except Exception as e:  # noqa: BLE001
+            fails.append((name, f"raised {type(e).__name__}: {str(e)[:80]}"))
+            continue
+        if not isinstance(r, mg.Tensor) or r.constant != kw:
+            fails.append((name, f"the result has constant={getattr(r, 'constant', None)} although constant={kw} was passed"))
+            continue
+        if (r is t) and tconst != kw:
+            fails.append((name, "the very tensor was returned although another flag was asked for"))
+        (r * 2.0).sum().backward()
+        if kw and r.grad is not None:
+            fails.append((name, "a result made constant acquired a .grad"))
+        if not kw and r.grad is None:
+            fails.append((name, "a result made non-constant received no gradient"))
+    for cname, f in CONV[:2]:
+        name = f"conversion|{cname}|integer|constant=False"
+        if only is not None and name != only:
+            continue
+        n += 1
+        ti = mg.tensor([1, 2, 3])
+        try:
+            r = f(ti, False)
+            fails.append((name, f"an integer tensor was made non-constant (constant={r.constant}) instead of being refused"))
+        except Exception:  # noqa: BLE001
+            pass
     return n, fails
 
 
